@@ -366,7 +366,32 @@ class Sym:
         ss = [x for x in body.get("s", []) if not is_noop(x)]
         if len(ss) != 1 or ss[0].get("k") != "ret" or ss[0].get("e") is None:
             return None
+        if not self.placelike(ss[0]["e"]):
+            return None
         return b, ss[0]["e"]
+
+    def placelike(self, e, depth=0):
+        """accessor bodies denote a place or a plain read of one: member / element / dereference chains only"""
+        e = strip(e)
+        if not isinstance(e, dict) or depth > 6:
+            return False
+        k = e.get("k")
+        if k in ("var", "this"):
+            return True
+        if k == "mem":
+            return "f" not in e and self.placelike(e.get("b"), depth + 1)
+        if k == "idx":
+            return self.placelike(e.get("b"), depth + 1)
+        if k == "un" and e.get("op") in ("*", "&"):
+            return self.placelike(e.get("e"), depth + 1)
+        if k == "call" and "f" in e:
+            fb = self.F.body(e["f"])
+            if fb is None:
+                return False
+            body = fb.get("body") or {}
+            ss = [x for x in body.get("s", []) if not is_noop(x)]
+            return len(ss) == 1 and ss[0].get("k") == "ret" and ss[0].get("e") is not None and self.placelike(ss[0]["e"], depth + 1)
+        return False
 
     def sym(self, e):
         if e is None:
@@ -394,6 +419,8 @@ class Sym:
         if k == "mem":
             if "f" in e:
                 return "&fn:%s" % self.F.fdisp(e["f"])
+            if e.get("o") == "BackUp":
+                return self.sym(e.get("b")) + ".BackUp::" + e["n"]
             return self.sym(e.get("b")) + "." + e["n"]
         if k == "idx":
             return self.sym(e["b"]) + "[" + self.sym(e["i"]) + "]"
